@@ -31,6 +31,8 @@ def run(r):
                 ("OPTLR", 3, AB, 2, [s % 2], {})]
         rnd = [(120, dict(maxlen=5, share=1, named=2, trees=1)), (100, dict(tmpl="share", named=0, trees=1, seed_off=5)), (60, dict(maxlen=4, share=1, named=2, trees=1, base=0, seed_off=9))]
     parsefam.run_plan(r, {"props": ["C01"], "families": fams, "random": rnd, "trees": True})
+    # derivations that need deep left nesting: inputs of 70-130 positions on the left-recursive families (judged on end positions)
+    r.extra["long_inputs"] = parsefam.long_inputs(r, ["C01"], [70, 130] if th else [70 + s % 7])
     r.rule = ("model->code: every (grammar, input) of the explored family slices, root + every memoised nonterminal at every position "
               "on the warm context, real end positions compared with Derivation!Ends and outcomes with ParsleyMachine; code->model: random "
               "admissible grammars (all combinators, sharing bias) validated event by event. distinct_nontrivial = exported cases in which "
